@@ -8,7 +8,7 @@ def p_parts():
     from ._rowfilter import p_rowfilter
     from ._pagemask import p_pagemask
     from ._generic import optional_parts
-    return [p_rowfilter, p_pagemask] + optional_parts(("_readoptions", "p_readoptions"))
+    return [p_rowfilter, p_pagemask] + optional_parts(("_readoptions", "p_readoptions"), ("_pathconv", "p_hive_convention"))
 
 
 def run(ctx):
